@@ -776,6 +776,9 @@ def main(argv):
         # from the contract anchors, only a concrete failing input makes it a violation.
         rs = run_replay_search(pid, final_viol[0], seed, budget)
         found = bool(rs and rs.get('found'))
+        if rs and rs.get('error') and not found:
+            # the search itself did not run (e.g. the harness does not build against this tree): say so
+            print('NOTE property=%s replay search did not run: %s' % (pid, str(rs.get('error')).strip().split('\n')[0][:300]))
         if not found and not drift_notes and all(v.get('kind') == 'hint' for v in final_viol):
             # every contract clause still discharges; what fails is a step of the proof text itself (an invariant, an
             # assert, the precondition of a lemma) and no failing input exists within the replay search: the proof no
